@@ -60,7 +60,7 @@ def merge_stats(ctx, names):
             s = json.load(open(p))
             for k, v in s["counters"].items():
                 counters[k] = counters.get(k, 0) + v
-            samples += s["samples"]
+            samples += (s.get("samples") or [])
     return counters, samples
 
 
